@@ -398,6 +398,31 @@ def c11_sites(repo_root, tier):
             bad = sorted(assigned - ts)
             _ob(obs, f"{m.name}:{c.name}/site.assigned-names-in-template-scope", not bad,
                 f"render binds {sorted(assigned)} in the template scope and template_scope() reports it" if not bad else f"render assigns self.{bad[0]} but template_scope() does not report it")
+    # ---- (1c) children()/expressions() hand a part out whenever it exists: the only condition on reporting self.<f> is its presence
+    #      (`if self.f:` / `is not None`), never a property of it (a blank else block still runs its assigns and captures)
+    for m, c in node_classes(repo, "Node"):
+        meth = _methods(repo, m, c)
+        for rep in ("children", "children_async", "expressions"):
+            if rep not in meth or meth[rep][1].name != c.name:
+                continue
+            fn = meth[rep][2]
+            bad = []
+            for g in ast.walk(fn):
+                if isinstance(g, (ast.If, ast.IfExp)):
+                    body = g.body if isinstance(g.body, list) else [g.body]
+                    reports = any(isinstance(x, (ast.Yield, ast.YieldFrom, ast.Return)) or (isinstance(x, ast.Call) and isinstance(x.func, ast.Attribute) and x.func.attr in ("append", "extend"))
+                                  for st in body for x in ast.walk(st))
+                    if not reports:
+                        continue
+                    for a in ast.walk(g.test):
+                        # self.f.<something> in the guard of a report: a property of the part decides whether it is reported
+                        if isinstance(a, ast.Attribute) and isinstance(a.value, ast.Attribute) and isinstance(a.value.value, ast.Name) and a.value.value.id == "self" \
+                                and a.attr not in ("children", "expressions"):
+                            bad.append(f"`{ast.unparse(g.test)}` (line {g.lineno})")
+            if any(isinstance(g, (ast.If, ast.IfExp)) for g in ast.walk(fn)):
+                _ob(obs, f"{m.name}:{c.name}.{rep}/site.reported-whenever-present", not bad,
+                    "parts are reported under presence tests only" if not bad
+                    else f"{rep}() reports a part only if {bad[0]}: the part is rendered regardless, so what it uses is missing from the analysis")
     # ---- (1b) a node that evaluates a *part* of one of its expressions (self.expression.cols.evaluate(..)) relies on that
     #      expression's children() to report the part
     expr_classes = {c.name: (m, c) for m, c in node_classes(repo, "Expression")}
